@@ -18,6 +18,54 @@ def attemptsF (L : Layout) (ck : Checksum) : Writer → List (Call × Fault) →
   | _, [] => []
   | w, (c, f) :: cs => c.attempt ck w ++ attemptsF L ck (w.stepF L ck c f).1 cs
 
+/-- the items the calls of a run with faults appended completely -/
+def recsF (L : Layout) (ck : Checksum) : Writer → List (Call × Fault) → List Rec
+  | _, [] => []
+  | w, (c, f) :: cs => recsAfterF L ck w c f ++ recsF L ck (w.stepF L ck c f).1 cs
+
+theorem recsAfterF_mem (w : Writer) (c : Call) (f : Fault) (rec : Rec)
+    (h : rec ∈ recsAfterF L ck w c f) : rec = c.toRec w := by
+  unfold recsAfterF at h
+  split at h
+  · cases h
+  · exact List.mem_singleton.mp h
+
+theorem recsF_off_ge (hL : L.OK) :
+    ∀ (cs : List (Call × Fault)) (w : Writer) (d : Disk) (g : G), GQ L ck d g → Link w g →
+      HypsIO L ck w d cs → ∀ rec ∈ recsF L ck w cs, g.free ≤ rec.off := by
+  intro cs
+  induction cs with
+  | nil => intro w d g _ _ _ rec h; cases h
+  | cons cf cs ih =>
+    obtain ⟨c, f⟩ := cf
+    intro w d g q hl hh rec hrec
+    obtain ⟨al, out⟩ := call_io hL q hl c f hh.1
+    simp only [recsF, List.mem_append] at hrec
+    rcases hrec with h | h
+    · rw [recsAfterF_mem w c f rec h, toRec_off, link_free hl]; exact Nat.le_refl _
+    · have q' := gq_conf hL _ d g q out.conf
+      rw [out.erase] at q'
+      have := ih _ _ _ q' out.link hh.2 rec h
+      have := conf_free_mono al g d out.conf
+      omega
+
+/-- what a later era needs to know about the image it reopens (cf. `ReopenOK`) -/
+structure ReopenG (L : Layout) (ck : Checksum) (img : Img) (w : Writer) : Prop where
+  fs : (L.freeStart : Int) ≤ w.root.free
+  slot : w.nextRoot = L.rootA ∨ w.nextRoot = L.rootB
+  stale : ∀ r', loadValid ck img w.nextRoot = some r' → r'.gen < w.root.gen
+  cur : loadValid ck img (L.other w.nextRoot) = some w.root
+  lenA : lenOK img L.rootA
+  lenB : lenOK img L.rootB
+
+theorem GQ.reopenG (hL : L.OK) {d : Disk} {g : G} (q : GQ L ck d g) (χ : List (List Bool)) (w : Writer)
+    (ho : Writer.open L ck (d.crash χ) = some w) : ReopenG L ck (d.crash χ) w := by
+  obtain ⟨_, _, _, hfs, hsl, hst, hcur, hA, hB⟩ := (q.safe hL χ).2 w ho
+  refine ⟨hfs, ?_, hst, hcur, hA, hB⟩
+  rcases hsl with h | h <;> rw [h]
+  · exact q.next_slot
+  · exact Layout.other_slot hL q.next_slot
+
 theorem run_io (hL : L.OK) :
     ∀ (cs : List (Call × Fault)) (w : Writer) (d : Disk) (g : G) (A : List Root),
       GQ L ck d g → Link w g → (∀ r, g.newer r → r ∈ A) → HypsIO L ck w d cs →
@@ -25,16 +73,19 @@ theorem run_io (hL : L.OK) :
         (Writer.open L ck ((d.execAll ((traceF L ck w cs).take n)).crash χ) = none →
           doneFromF L ck w g.done cs n = none) ∧
         ∀ w', Writer.open L ck ((d.execAll ((traceF L ck w cs).take n)).crash χ) = some w' →
-          some w'.root = doneFromF L ck w g.done cs n ∨
+          (some w'.root = doneFromF L ck w g.done cs n ∨
           (w'.root ∈ A ++ attemptsF L ck w cs ∧
-            ∀ r, doneFromF L ck w g.done cs n = some r → r.gen < w'.root.gen) := by
+            ∀ r, doneFromF L ck w g.done cs n = some r → r.gen < w'.root.gen)) ∧
+          (∀ rec ∈ g.recs ++ recsF L ck w cs, (rec.end_ : Int) ≤ w'.root.free →
+            agreeRec ((d.execAll ((traceF L ck w cs).take n)).crash χ) rec) ∧
+          ReopenG L ck ((d.execAll ((traceF L ck w cs).take n)).crash χ) w' := by
   intro cs
   induction cs with
   | nil =>
     intro w d g A q _ hA _ n χ
-    simp only [traceF, List.take_nil, Disk.execAll, doneFromF, attemptsF, List.append_nil]
+    simp only [traceF, List.take_nil, Disk.execAll, doneFromF, attemptsF, recsF, List.append_nil]
     obtain ⟨h1, h2⟩ := q.safe hL χ
-    refine ⟨h1, fun w' hw' => ?_⟩
+    refine ⟨h1, fun w' hw' => ⟨?_, (h2 w' hw').2.1, q.reopenG hL χ w' hw'⟩⟩
     rcases (h2 w' hw').1 with h | h
     · exact Or.inl h
     · exact Or.inr ⟨hA _ h, (q.newer_ok _ h).1⟩
@@ -55,7 +106,33 @@ theorem run_io (hL : L.OK) :
       have hdone : (gfin L g (al.take m)).done = g.done := gfin_done _ _ hns
       simp only [htake, doneFromF, hn, if_true]
       obtain ⟨h1, h2⟩ := q2.safe hL χ
-      refine ⟨fun h => by rw [← hdone]; exact h1 h, fun w' hw' => ?_⟩
+      refine ⟨fun h => by rw [← hdone]; exact h1 h, fun w' hw' => ⟨?_, ?_, q2.reopenG hL χ w' hw'⟩⟩
+      rotate_left
+      · -- items: recorded ones are intact, the others start at or beyond the recovered frontier
+        obtain ⟨_, hint, hfree, _⟩ := h2 w' hw'
+        have hsplit : al = al.take m ++ al.drop m := (List.take_append_drop m al).symm
+        have hconf := out.conf
+        rw [hsplit, conf_append] at hconf
+        have hmono := conf_free_mono _ _ _ hconf.2
+        rw [← gfin_append, ← hsplit] at hmono
+        have q' := gq_conf hL _ d g q out.conf
+        rw [out.erase] at q'
+        intro rec hrec hle
+        have hbeyond : (gfin L g (al.take m)).free ≤ rec.off → False := by
+          intro hb
+          have : rec.off < rec.end_ := by unfold Rec.end_; omega
+          omega
+        simp only [recsF, List.mem_append] at hrec
+        rcases hrec with hr | hr | hr
+        · exact hint rec (gfin_recs_sub L _ g rec hr) hle
+        · have he := recsAfterF_mem w c f rec hr
+          rcases gfin_rec_or L rec (al.take m) g
+              (fun r hr' => by rw [he]; exact out.adv r (List.mem_of_mem_take hr'))
+              (Or.inr (by rw [he, toRec_off, link_free hl]; exact Nat.le_refl _)) with h | h
+          · exact hint rec h hle
+          · exact absurd h (fun h => hbeyond h)
+        · have := recsF_off_ge hL cs _ _ _ q' out.link hh.2 rec hr
+          exact absurd (by omega : (gfin L g (al.take m)).free ≤ rec.off) (fun h => hbeyond h)
       rcases (h2 w' hw').1 with h | h
       · left; rw [← hdone]; exact h
       · right
@@ -79,8 +156,8 @@ theorem run_io (hL : L.OK) :
         · exact List.mem_append_left _ (hA _ h')
         · exact List.mem_append_right _ (out.rootw _ off b hmem)
       have := ih _ _ _ (A ++ c.attempt ck w) q' out.link hA' hh.2 (n - (w.stepF L ck c f).2.1.length) χ
-      simp only [htake, execAll_append, doneFromF, hn, if_false, attemptsF]
-      rw [out.done] at this
+      simp only [htake, execAll_append, doneFromF, hn, if_false, attemptsF, recsF]
+      rw [out.done, out.recs] at this
       simpa [List.append_assoc] using this
 
 end AranyaV.Disk
